@@ -94,6 +94,7 @@ void use(const Grid<double> &g, const Spline<double, 0> &s0, const Spline<double
   (void)BilinearForm{A1{}, A2{}}.evaluate(s2, s1);
   (void)BilinearForm{A0{}, B0{}}.evaluate(s1, s1);
   (void)BilinearForm{A1{}, A2{}}(s1, s2);
+  (void)BilinearForm{A0{}, B0{}}(s1, s1);
   (void)ScalarProduct{}.evaluate(s1, s2);
   (void)ScalarProduct{}.evaluate(s0, s0);
   (void)ScalarProduct{}.evaluate(s2, s2);
